@@ -223,6 +223,7 @@ def run(res: Results, idx: Index, tier: str) -> None:
 
     rule_e(res, idx)
     rule_f(res, idx)
+    rule_g(res, idx)
     from .c03 import inherited_settings
     res.rule("R-C09d", "nested Loop / If / function scopes inherit enable_double_precision from an attribute that exists", floor=1)
     for site, key, status, detail, func, setting in inherited_settings(idx):
@@ -467,3 +468,105 @@ def rule_f(res: Results, idx: Index) -> None:
                 else:
                     res.unresolved("R-C09f", site, key, "guard of the widening not recognised", fi.qualname)
     res.analysed["float64_widening_sites"] = n
+
+
+# ---------------------------------------------------------------------------------------------- R-C09g
+_PAYLOAD_ATTRS = {"const_value", "numpy", "tolist", "item"}
+_FLOAT_ATTR_CTORS = {"AttrFloat32", "AttrFloat32s"}
+
+
+def _is_payload_reader_name(cn: str) -> bool:
+    # imported helpers that hand out a tensor's payload: const_value_to_numpy, tensor_to_numpy, get_const_value, …
+    return ("to_numpy" in cn or "const_value" in cn or cn in ("get_const_value",)) and not cn.startswith("np.")
+
+
+def _payload_functions(m) -> set:
+    """Functions of module m whose return value may derive from a tensor's constant payload (fixpoint over local calls)."""
+    out: set = set()
+    changed = True
+    while changed:
+        changed = False
+        for fi in m.funcs.values():
+            if fi.qualname in out:
+                continue
+            du = defuse(fi.node)
+            for r in walk_no_nested(fi.node):
+                if not isinstance(r, ast.Return) or r.value is None:
+                    continue
+                exprs = [r.value] + [d.value for nm in du.closure(names_in(r.value)) for d in du.defs.get(nm, []) if d.value is not None]
+                hit = False
+                for e in exprs:
+                    for x in ast.walk(e):
+                        if isinstance(x, ast.Attribute) and x.attr in _PAYLOAD_ATTRS:
+                            hit = True
+                        if isinstance(x, ast.Call):
+                            cn = (call_name(x) or "").split(".")[-1]
+                            if cn in {q.split(".")[-1] for q in out} or _is_payload_reader_name(cn):
+                                hit = True
+                if hit:
+                    out.add(fi.qualname)
+                    changed = True
+                    break
+    return out
+
+
+def rule_g(res: Results, idx: Index) -> None:
+    """ONNX float attributes are float32.  A graph rewrite that replaces a constant TENSOR operand by a float attribute
+    (Mul by a scalar folded into `alpha=`, a bias folded into `beta=`) rounds a float64 payload through float32: in a
+    double-precision export the result is then only single-precision accurate although every tensor is DOUBLE.  Every node
+    a converter pass constructs is an instance; a float attribute whose value derives from a tensor payload is allowed
+    only under a guard that names float32 (payload dtype is float32, or the value is float32-representable)."""
+    res.rule("R-C09g", "graph rewrites do not move a tensor constant's payload into a (float32) float attribute without a float32 guard", floor=3)
+    from ..guards import path_conditions
+    n = 0
+    for m in idx.product_modules():
+        if not m.rel.startswith("jax2onnx/converter/"):
+            continue
+        if "ir.Node(" not in m.src and "ir.node(" not in m.src:
+            continue
+        pay = _payload_functions(m)
+        pay_last = {q.split(".")[-1] for q in pay}
+        for fi in m.funcs.values():
+            du = None
+            for c in walk_no_nested(fi.node):
+                if not (isinstance(c, ast.Call) and (call_name(c) or "") in ("ir.Node", "ir.node")):
+                    continue
+                n += 1
+                optype = next((a.value for a in c.args if isinstance(a, ast.Constant) and isinstance(a.value, str) and a.value), "?")
+                key = f"{m.rel}::{fi.qualname}::node::{optype}#{sum(1 for x in walk_no_nested(fi.node) if isinstance(x, ast.Call) and (call_name(x) or '') in ('ir.Node', 'ir.node') and x.lineno < c.lineno)}"
+                site = f"{m.rel}:{c.lineno}"
+                attrs = next((k.value for k in c.keywords if k.arg == "attributes"), None)
+                if attrs is None:
+                    res.ok("R-C09g", site, key, "node built without attributes", fi.qualname)
+                    continue
+                du = du or defuse(fi.node)
+                exprs = [attrs] + [d.value for nm in du.closure(names_in(attrs)) for d in du.defs.get(nm, []) if d.value is not None]
+                bad = None
+                for e in exprs:
+                    for x in ast.walk(e):
+                        if not isinstance(x, ast.Call):
+                            continue
+                        cn = (call_name(x) or "").split(".")[-1]
+                        is_float_attr = cn in _FLOAT_ATTR_CTORS or (cn == "Attr" and "FLOAT" in src(x, 200))
+                        if not is_float_attr or len(x.args) < 2:
+                            continue
+                        v = x.args[-1]
+                        vex = [v] + [d.value for nm in du.closure(names_in(v)) for d in du.defs.get(nm, []) if d.value is not None]
+                        tainted = None
+                        for ve in vex:
+                            for y in ast.walk(ve):
+                                if isinstance(y, ast.Attribute) and y.attr in _PAYLOAD_ATTRS:
+                                    tainted = tainted or f"`.{y.attr}`"
+                                if isinstance(y, ast.Call) and ((call_name(y) or "").split(".")[-1] in pay_last or _is_payload_reader_name((call_name(y) or "").split(".")[-1])):
+                                    tainted = tainted or f"{(call_name(y) or '').split('.')[-1]}()"
+                        if tainted:
+                            guards = " ".join(src(e2, 200) for e2, _w in path_conditions(c)) + " ".join(src(e2, 200) for e2, _w in path_conditions(x))
+                            if "float32" in guards:
+                                continue
+                            bad = (x, tainted)
+                if bad is not None:
+                    res.violation("R-C09g", f"{m.rel}:{bad[0].lineno}", key, f"`{src(bad[0], 60)}` stores a value read from a tensor payload ({bad[1]}) in a float attribute: float attributes are float32, so a float64 constant "
+                                  f"(enable_double_precision=True) is rounded to single precision by the rewrite; no guard on the path names float32", fi.qualname)
+                else:
+                    res.ok("R-C09g", site, key, "no float attribute of the constructed node derives from a tensor payload", fi.qualname)
+    res.analysed["pass_constructed_nodes"] = n
